@@ -149,6 +149,9 @@ inductive POp where
   | copyAssign (i j : Nat)    -- slot j = slot i
   | destroy (s : Nat)
   | call (s : Nat) (op : Op)
+  /-- the object in slot `s` evaluates `Interpolate(xold)`, is destroyed (placement new) or overwritten (assignment) by a newly
+      constructed object of table `t` in the SAME storage, and the new object's first call is `Interpolate(xnew)` -/
+  | rebuild (s t : Nat) (xold xnew : Rat)
   deriving Repr
 
 inductive PErr where
@@ -158,15 +161,24 @@ inductive PErr where
 
 abbrev Pool := Array (Option Obj)
 
+def poolMake (tables : Array (List Rat × List Rat)) (pool : Pool) (s t : Nat) : Except PErr (Ans × Pool) :=
+  if s < pool.size then
+    match tables[t]? with
+    | some (xs, ys) => match mk xs ys (-1) (-1) with
+      | .ok o => .ok (.unit, pool.set! s (some o))
+      | .error _ => .error .diag
+    | none => .error .invalid
+  else .error .invalid
+
+def poolCall [SqrtFn] (pool : Pool) (s : Nat) (op : Op) : Except PErr (Ans × Pool) :=
+  match pool.getD s none with
+  | some o => match step o op with
+    | .ok (a, o') => .ok (a, pool.set! s (some o'))
+    | .error _ => .error .diag
+  | none => .error .invalid
+
 def poolStep [SqrtFn] (tables : Array (List Rat × List Rat)) (pool : Pool) : POp → Except PErr (Ans × Pool)
-  | .make s t =>
-    if s < pool.size then
-      match tables[t]? with
-      | some (xs, ys) => match mk xs ys (-1) (-1) with
-        | .ok o => .ok (.unit, pool.set! s (some o))
-        | .error _ => .error .diag
-      | none => .error .invalid
-    else .error .invalid
+  | .make s t => poolMake tables pool s t
   | .copyConstruct i j | .copyAssign i j =>
     if j < pool.size then
       match pool.getD i none with
@@ -174,11 +186,16 @@ def poolStep [SqrtFn] (tables : Array (List Rat × List Rat)) (pool : Pool) : PO
       | none => .error .invalid
     else .error .invalid
   | .destroy s => if s < pool.size then .ok (.unit, pool.set! s none) else .error .invalid
-  | .call s op =>
+  | .call s op => poolCall pool s op
+  | .rebuild s t xold xnew =>
     match pool.getD s none with
-    | some o => match step o op with
-      | .ok (a, o') => .ok (a, pool.set! s (some o'))
+    | some o => match o.interpolate xold with
       | .error _ => .error .diag
+      | .ok _ =>
+        -- objects are values: what lived in the storage before leaves no trace in the newly constructed object
+        match poolMake tables pool s t with
+        | .ok (_, pool') => poolCall pool' s (.interp xnew)
+        | .error e => .error e
     | none => .error .invalid
 
 end Lp.C09
